@@ -64,9 +64,15 @@ Missing == {Vec(<<StdCtl("gz"), StdDat("gz")>>), Vec(<<Bin(V20), StdDat("gz")>>)
 Orders == {Vec(<<StdCtl("gz"), Bin(V20), StdDat("gz")>>), Vec(<<StdDat("gz"), StdCtl("gz"), Bin(V20)>>),
            Vec(<<Bin(V20), Extra("_x", <<1>>), StdCtl(""), StdDat("gz")>>)}
 Decoy(c) == Ctl(c, <<CtlF("./control")>>, Fields(PkgDecoy, FALSE))
+\* a decoy only has to START with "control." / "data." to be picked up: "control.x.tar" is read as a plain tar
+DecoyNamed(nm) == [Decoy("") EXCEPT !.name = nm, !.extname = "x.tar"]
+DataDecoyNamed(nm) == [Dat("", <<DataFile(3)>>) EXCEPT !.name = nm, !.extname = "x.tar"]
 Ambiguous == {Vec(<<Bin(V20), StdCtl("gz"), StdDat("gz"), Decoy("")>>), Vec(<<Bin(V20), Decoy(""), StdCtl("gz"), StdDat("gz")>>),
               Vec(<<Bin(V20), StdCtl("gz"), StdDat("gz"), Dat("", <<DataFile(3)>>)>>),
-              Vec(<<Bin(V20), StdCtl("gz"), StdDat("gz"), Bin(<<51, 46, 48, 10>>)>>)}
+              Vec(<<Bin(V20), StdCtl("gz"), StdDat("gz"), Bin(<<51, 46, 48, 10>>)>>),
+              Vec(<<Bin(V20), StdCtl("gz"), StdDat("gz"), DecoyNamed("control.x.tar")>>),
+              Vec(<<Bin(V20), StdCtl("gz"), StdDat("gz"), DataDecoyNamed("data.x.tar")>>),
+              Vec(<<Bin(V20), StdCtl("gz"), StdDat("gz"), [Extra("control.zzz", <<1, 2>>) EXCEPT !.role = "control"]>>)}
 C14Vecs == Combos \cup Layouts \cup Versions \cup Missing \cup Orders \cup Ambiguous
 
 \* ---- C16 ------------------------------------------------------------------
@@ -90,6 +96,9 @@ SigDecoys == {SVec(ms, "origin", <<"k1">>, NoTamper, <<1, 2, 3>>) : ms \in
                 { Signed("gz", "origin", "k1") \o <<Decoy("")>>,
                   Signed("gz", "origin", "k1") \o <<Decoy("gz")>>,
                   Signed("gz", "origin", "k1") \o <<Dat("", <<DataFile(3)>>)>>,
+                  Signed("gz", "origin", "k1") \o <<DecoyNamed("control.x.tar")>>,
+                  Signed("gz", "origin", "k1") \o <<DataDecoyNamed("data.x.tar")>>,
+                  Signed("", "origin", "k1") \o <<DecoyNamed("control.tarx")>>,
                   <<Bin(V20), Decoy(""), StdCtl("gz"), StdDat("gz"), Sig("origin", "k1", <<1, 3, 4>>)>>,
                   <<Bin(V20), Decoy(""), StdCtl("gz"), StdDat("gz"), Sig("origin", "k1", <<1, 2, 4>>)>>,
                   <<Bin(V20), StdCtl("gz"), Dat("", <<DataFile(3)>>), StdDat("gz"), Sig("origin", "k1", <<1, 2, 4>>)>>,
